@@ -12,6 +12,7 @@ import lib
 from lib import VERIF
 
 T0 = time.time()
+os.environ.setdefault('VERIF_CAP', str(4 * 1024 * 1024))
 
 
 class Result:
@@ -176,12 +177,25 @@ def codec_corr(pipe, res, nper, modes, want_dec=True, classes=None, big=False):
         reqs += extra
         mod += mod2
     # requests on which the model predicts undefined behaviour or an allocation failure run in a child process
-    sent = [('!' + r) if (' halt=oob' in a or ' halt=badalloc' in a) else r for r, a in zip(reqs, mod)]
+    sent = [('!' + r) if ' halt=oob' in a else r for r, a in zip(reqs, mod)]
     imp, rc, err = lib.session(exe, sent, timeout=1800)
     if len(imp) != len(reqs):
         res.oblige('D:harness-session', False, 'got %d answers for %d requests; rc=%s stderr=%s' % (len(imp), len(reqs), rc, err[-1500:]))
         return reqs, mod, imp
     return reqs, mod, imp
+
+
+def same_modulo_indet(a, b, c):
+    """answers equal once members without initialiser are masked in the object dump"""
+    if a == b:
+        return True
+    ind = set(str(i) for i, f in enumerate(c['fields']) if not f['hasInit'])
+    if not ind:
+        return False
+    da, db = parse_kv(a), parse_kv(b)
+    oa = [x for x in da.pop('obj', []) if x.split('=')[0] not in ind]
+    ob = [x for x in db.pop('obj', []) if x.split('=')[0] not in ind]
+    return da == db and oa == ob
 
 
 def compare_codec(res, reqs, mod, imp, summary):
@@ -449,6 +463,216 @@ def check_C03(res):
     finish_codec(res)
 
 
+def load_images(res):
+    """reference images: walked out of the 170 logs + the raw lobj samples -> list of (name, type, bytes)"""
+    walk = os.path.join(lib.scratch(), 'images.json')
+    if not os.path.exists(walk):
+        p = lib.run([sys.executable, os.path.join(VERIF, 'spec', 'walk_logs.py'), os.path.join(lib.SRC, 'tests', 'unittests'), walk])
+        if p.returncode != 0:
+            res.oblige('S:walk-logs', False, p.stdout[-500:])
+            return [], 0
+    im = json.load(open(walk))
+    out = [('%s@%d' % (x['file'], x['offset']), x['type'], bytes.fromhex(x['hex'])) for x in im['images']]
+    import glob
+    for f in sorted(glob.glob(os.path.join(lib.SRC, 'tests', 'unittests', 'lobj', '*', '*.lobj'))):
+        b = open(f, 'rb').read()
+        if len(b) >= 16 and b[:4] == b'LOBJ':
+            out.append((os.path.relpath(f, lib.SRC), int.from_bytes(b[12:16], 'little'), b))
+    return out, im['nfiles']
+
+
+def mask_offsets(c):
+    """byte ranges of fields the encoder recomputes by design (headerSize, objectSize, constant pre-assignments),
+    for classes with a layout hint"""
+    m = [(4, 6), (8, 12)]
+    lay = c.get('layout')
+    if lay:
+        consts = [g for g, e in lay['pre'] if e[0] == 'const']
+        off = 4
+        for it in lay['items']:
+            if it[0] == 'scalar':
+                if it[1] in consts:
+                    m.append((off, off + it[2]))
+                off += it[2]
+            elif it[0] == 'fixed':
+                off += it[2]
+            else:
+                break
+    return m
+
+
+def masked(b, m):
+    b = bytearray(b)
+    for a, e in m:
+        for i in range(a, min(e, len(b))):
+            b[i] = 0
+    return bytes(b)
+
+
+def reenc_verdict(img, ans, m, pads):
+    """-> None (not decoded completely: outside the property), 'ok', or a failure string"""
+    d = parse_kv(ans)
+    if d.get('cmd') != 'reenc' or d.get('halt') != 'none' or d.get('short') != 'false' or 'out' not in d:
+        return None
+    if d.get('ehalt') != 'none':
+        return 'encode of the decoded object stopped (%s)' % d.get('ehalt')
+    out = bytes.fromhex(d['out'])
+    pos = int(d['pos'])
+    if len(out) < 16:
+        return 'short output'
+    nosz = int.from_bytes(out[8:12], 'little')
+    body = out[:nosz] if len(out) >= nosz else out
+    cons = img[:pos]
+    # bytes the decoder consumed, padding excluded
+    if pads and len(out) > nosz:
+        if any(out[nosz:]):
+            return 'non-zero padding emitted'
+    if masked(body, m) != masked(cons[:len(body)], m):
+        k = next(i for i in range(min(len(body), len(cons))) if masked(body, m)[i] != masked(cons, m)[i]) if len(body) <= len(cons) else -1
+        return 're-encoded bytes differ from the image at offset %d (re-encoded %d bytes, consumed %d)' % (k, len(body), pos)
+    if len(body) + (len(out) - len(body)) < pos and not pads:
+        return 're-encoded %d bytes but the decoder consumed %d' % (len(out), pos)
+    return 'ok'
+
+
+def check_C02(res):
+    pipe = Pipe(res)
+    tr = pipe.regenerate()
+    if not tr['ok']:
+        return finish_codec(res)
+    summary = tr['summary']
+    regres = pipe.checks()
+    res.checker_cmd = 'cd lean && lake build Blf.Props.C02 && lake env lean <#print axioms>'
+    pipe.lean(['Blf.Props.C02', 'blfdriver'], {'Blf.Props.C02': ['Blf.Props.C02_left_inverse', 'Blf.Props.C02_fresh_arrays', 'Blf.Gen.exact_all']})
+    coverage_obligations(pipe, res, summary, regres)
+    images, nfiles = load_images(res)
+    cls = {c['name']: c for c in summary['classes']}
+    fac = summary.get('factory', {})
+    exe = pipe.harness('codec_harness', ['codec_harness.cpp'])
+    drv = lib.driver_exe()
+    if exe is None or not os.path.exists(drv) or not images:
+        return finish_codec(res)
+    rng = random.Random(lib.seed() * 104729 + 5)
+    reqs = []
+    meta = []
+    npos = 12 if res.tier == 'quick' else 10 ** 9
+    vals = [0x00, 0xff, 0x80] if res.tier == 'quick' else [0x00, 0x01, 0x7f, 0x80, 0xff, 0x55, 0xaa]
+    for name, typ, img in images:
+        cn = fac.get(str(typ))
+        if cn is None or cn not in cls:
+            res.notes.append('image %s has type %d without a class' % (name, typ))
+            continue
+        reqs.append('reenc %s %s' % (cn, img.hex()))
+        meta.append((name, cn, img, None))
+        osz = int.from_bytes(img[8:12], 'little')
+        positions = list(range(16, min(osz, len(img))))
+        if len(positions) > npos:
+            positions = sorted(rng.sample(positions, npos))
+        for ppos in positions:
+            vs = list(vals)
+            if res.tier == 'thorough' and rng.random() < 0.05:
+                vs = list(range(256))
+            for v in vs + [img[ppos] ^ 0x55]:
+                if v == img[ppos]:
+                    continue
+                d = bytearray(img)
+                d[ppos] = v
+                reqs.append('reenc %s %s' % (cn, bytes(d).hex()))
+                meta.append((name, cn, bytes(d), (ppos, v)))
+        # aligned 2/4/8-byte groups with boundary values
+        for w in (2, 4, 8):
+            for _ in range(2 if res.tier == 'quick' else 12):
+                if osz - 16 < w:
+                    continue
+                ppos = rng.randrange(16, osz - w + 1) // w * w
+                if ppos < 16:
+                    continue
+                v = rng.choice([0, 1, 256 ** w // 2 - 1, 256 ** w // 2, 256 ** w - 1])
+                d = bytearray(img)
+                d[ppos:ppos + w] = v.to_bytes(w, 'little')
+                d = bytes(d[:len(img)])
+                if d != img:
+                    reqs.append('reenc %s %s' % (cn, d.hex()))
+                    meta.append((name, cn, d, (ppos, v, w)))
+    mod, rc, err = lib.session(drv, reqs)
+    if len(mod) != len(reqs):
+        res.oblige('D:driver-session', False, '%d answers for %d requests %s' % (len(mod), len(reqs), err[-300:]))
+        return finish_codec(res)
+    sent = [('!' + r) if ' halt=oob' in a else r for r, a in zip(reqs, mod)]
+    imp, rc, err = lib.session(exe, sent, timeout=3000)
+    if len(imp) != len(reqs):
+        res.oblige('D:harness-session', False, '%d answers for %d requests; stderr %s' % (len(imp), len(reqs), err[-800:]))
+        return finish_codec(res)
+    res.corr['programs'] = len(set(m[1] for m in meta))
+    dis = 0
+    stats = {'base_images': 0, 'base_complete': 0, 'base_identical': 0, 'derived': 0, 'derived_complete_same_shape': 0,
+             'derived_identical': 0, 'skipped_incomplete_base': []}
+    base_ans = {}
+    fails = {}
+    for r, a, b, (name, cn, img, mut) in zip(reqs, mod, imp, meta):
+        res.corr['requests'] += 1
+        if not same_modulo_indet(a, b, cls[cn]):
+            if ' halt=oob' in a and b.startswith('crash'):
+                continue
+            if ' halt=badalloc' in a and ('badalloc' in b or b.startswith('crash')):
+                continue
+            ind = [i for i, f in enumerate(cls[cn]['fields']) if not f['hasInit'] and f['kind'][0] == 'num']
+            if ind and 'short=true' in a:
+                continue
+            dis += 1
+            if dis <= 20:
+                res.violation('model-vs-implementation', 'reenc correspondence differs for %s' % cn, {'request': r[:3000], 'model': a[:1500], 'impl': b[:1500], 'image': name, 'mutation': mut})
+            continue
+        m = mask_offsets(cls[cn])
+        pads = any(fac.get(k) == cn for k in fac) and cls[cn].get('layout') and any(it[0] == 'pad' for it in cls[cn]['layout']['items'])
+        v = reenc_verdict(img, b, m, pads)
+        if mut is None:
+            stats['base_images'] += 1
+            base_ans[name] = parse_kv(b)
+            if v is None:
+                stats['skipped_incomplete_base'].append(name)
+            else:
+                stats['base_complete'] += 1
+                if v == 'ok':
+                    stats['base_identical'] += 1
+                else:
+                    fails.setdefault((cn, 'fixture-not-reproduced'), (name, v, r))
+        else:
+            stats['derived'] += 1
+            ba = base_ans.get(name, {})
+            d = parse_kv(b)
+            if v is None or 'out' not in ba:
+                continue
+            # same shape: consumed count, recomputed object size and every field that a length expression or a
+            # variant/version condition of the class reads, as for the unmodified image
+            if d.get('pos') != ba.get('pos') or bytes.fromhex(d['out'])[8:12] != bytes.fromhex(ba['out'])[8:12]:
+                continue
+            sf = set(str(x) for x in cls[cn].get('shapeFields', []))
+            oa = dict(x.split('=') for x in ba.get('obj', []))
+            ob = dict(x.split('=') for x in d.get('obj', []))
+            if any(oa.get(k) != ob.get(k) for k in sf):
+                continue
+            stats['derived_complete_same_shape'] += 1
+            if v == 'ok':
+                stats['derived_identical'] += 1
+            elif d.get('out') == ba.get('out'):
+                # the overwritten byte is not represented in the decoded object at all (union filler / padding):
+                # not a field value, outside the property
+                stats.setdefault('derived_ignored_filler_byte', 0)
+                stats['derived_ignored_filler_byte'] += 1
+            else:
+                fails.setdefault((cn, 'derived-not-reproduced'), (name, '%s after overwrite %s' % (v, mut), r))
+    res.corr['disagreements'] = dis
+    res.oblige('D:reenc-correspondence', dis == 0, '%d disagreements' % dis)
+    res.corr['distinct'] = len(set(reqs))
+    res.corr['rule'] = 'every object image of the %d reference logs and lobj samples, plus single-byte overwrites at sampled (quick) / all (thorough) offsets between base header and declared size and aligned 2/4/8-byte boundary overwrites; non-trivial = decoded completely with unchanged shape' % nfiles
+    res.corr['samples'] = [{'request': reqs[i][:160], 'answer': imp[i][:200]} for i in (0, 1, 2)]
+    res.corr.update({k: (v if not isinstance(v, list) else v[:10]) for k, v in stats.items()})
+    for (cn, kind), (name, v, r) in fails.items():
+        res.violation('reencode', '%s: %s (%s: %s)' % (cn, kind, name, v), {'class': cn, 'failure': kind, 'image': name, 'detail': v, 'request': r[:4000]})
+    finish_codec(res)
+
+
 def finish_codec(res):
     def kfilter(v, kf):
         pl = v.get('payload', {})
@@ -460,7 +684,7 @@ def finish_codec(res):
     sys.exit(finish(res, kfilter))
 
 
-PROPS = {'C03': check_C03}
+PROPS = {'C03': check_C03, 'C02': check_C02}
 
 
 def main():
